@@ -130,6 +130,73 @@ def run(ctx):
                 meta.append((spelled, os.path.abspath(os.path.join(cwd1, spelled))))
             if ci == 0:
                 res.sample({"configuration": case, "value": want, "paths": want_paths})
+        # ---- the same configuration given twice in one process ----
+        # (a) the directories were deleted in between: the store is set up again; (b) relative directories after a change of the
+        # working directory denote other directories: what is kept afterwards is found by a process started there
+        for ri in range(4 if thorough else 2):
+            root = os.path.join(base, "r%d" % ri)
+            cwd1, cwd2 = os.path.join(root, "cwd1"), os.path.join(root, "cwd2")
+            os.makedirs(cwd1)
+            os.makedirs(cwd2)
+            cache = [None, True][ri % 2]
+            wk = pipeline.WorkerProc("real", cwd=cwd1)
+            bad = None
+            try:
+                wk.call(cmd="world", dir=ws, module="c16w", extmod="c16e")
+                ai, ad = os.path.join(root, "again_i"), os.path.join(root, "again_d")
+                wk.call(cmd="store_api", internal_dir=ai, data_dir=ad, cache_objects=cache)
+                r1 = wk.call(cmd="run", entry=entry)
+                shutil.rmtree(ai)
+                shutil.rmtree(ad)
+                wk.call(cmd="store_api", internal_dir=ai, data_dir=ad, cache_objects=cache)
+                r2 = wk.call(cmd="run", entry=entry)
+                res.evaluations += 2
+                res.nontrivial("same configuration twice, wiped %d" % ri)
+                if r1["error"] or r2["error"] or r2["value"] != want:
+                    bad = "the same directories configured again after they were deleted: %s / %s" % (r1["error"], r2["error"] or r2["value"])
+                else:
+                    for p, v in want_paths.items():
+                        lv = wk.call(cmd="load", path=p)
+                        if lv["error"] is not None or lv["value"] != v:
+                            bad = "after re-configuring deleted directories load(%s) gives %s" % (p, lv)
+                            break
+                if bad is None:
+                    wk2 = pipeline.WorkerProc("real", cwd=cwd1)
+                    try:
+                        wk2.call(cmd="store_api", internal_dir=ai, data_dir=ad, cache_objects=None)
+                        for p, v in want_paths.items():
+                            lv = wk2.call(cmd="load", path=p)
+                            if lv["error"] is not None or lv["value"] != v:
+                                bad = "after re-configuring deleted directories another process loads %s as %s" % (p, lv)
+                                break
+                    finally:
+                        wk2.close()
+                if bad is None:
+                    wk.call(cmd="store_api", internal_dir="rel_i", data_dir="rel_d", cache_objects=cache)
+                    ra = wk.call(cmd="run", entry=entry)
+                    wk.call(cmd="cwd", dir=cwd2)
+                    wk.call(cmd="store_api", internal_dir="rel_i", data_dir="rel_d", cache_objects=cache)
+                    rb = wk.call(cmd="run", entry=entry)
+                    res.evaluations += 2
+                    if ra["error"] or rb["error"] or rb["value"] != want:
+                        bad = "relative directories configured again after a change of directory: %s / %s" % (ra["error"], rb["error"] or rb["value"])
+                    else:
+                        wk3 = pipeline.WorkerProc("real", cwd=cwd2)
+                        try:
+                            wk3.call(cmd="store_api", internal_dir="rel_i", data_dir="rel_d", cache_objects=None)
+                            for p, v in want_paths.items():
+                                lv = wk3.call(cmd="load", path=p)
+                                if lv["error"] is not None or lv["value"] != v:
+                                    bad = "a process started in the new working directory with the same relative configuration loads %s as %s" % (p, lv)
+                                    break
+                        finally:
+                            wk3.close()
+            except RuntimeError as e:
+                bad = "configuring the same store again fails: " + str(e).strip().splitlines()[-1][:300]
+            finally:
+                wk.close()
+            if bad:
+                res.violations.append({"what": bad, "input": {"configuration": "same arguments twice in one process", "cache_objects": cache}, "kf": None})
         # ---- two views on one internal directory ----
         for vi in range(6 if thorough else 2):
             root = os.path.join(base, "v%d" % vi)
